@@ -155,15 +155,84 @@ class Names:
         b = self.f.bodies[key]
         ps = [b.local_name(i) for i in range(1, b.argc + 1) if b.locals[i]["ty"] == BB]
         if len(ps) != 1:
+            if key != self.roster and key in self.generators.values():
+                # several sets are handed in: the mask is the one that receives the roster's own mask
+                cls = self.gen_call_classes(key)
+                ms = [b.local_name(i + 1) for i, c in enumerate(cls) if c == "mask"]
+                if len(ms) == 1:
+                    return ms[0]
             raise MissingAnchor("mask parameter of %s" % key)
         return ps[0]
+
+    def _roster_calls(self, in_check):
+        """generator call events of the roster (its own helpers inlined, the generators not), parameters canonically named"""
+        def go():
+            from .. import sym
+            f = self.f
+            rb = f.bodies[self.roster]
+            gens = set(self.generators.values())
+            rn = {rb.local_name(1): "self", self.mask_param(self.roster): "mask", self.listener_param(self.roster): "listener"}
+            cg = {"IN_CHECK": sym.TRUE if in_check else sym.FALSE} if "IN_CHECK" in rb.j["generics"] else {}
+            paths = sym.SymExec(f, rb, cgen=cg, inline=lambda n: False if n in gens else None, rename=rn).run()
+            out = {}
+            for p in paths:
+                for e in p.events:
+                    if e.kind == "call" and e.depth == 0 and e.name in gens:
+                        out.setdefault(e.name, [])
+                        if tuple(e.args) not in out[e.name]:
+                            out[e.name].append(tuple(e.args))
+            return out
+        return self._memo(("roster_calls", in_check), go)
+
+    @staticmethod
+    def _classify(a):
+        if a[0] == "ptr" and a[1] == ("P", "self"):
+            return "self"
+        if a == ("param", "mask"):
+            return "mask"
+        if a[0] == "ptr" and a[1] == ("P", "listener"):
+            return "listener"
+        return "bound"
+
+    def gen_call_classes(self, key):
+        """per parameter of a generator: 'self' | 'mask' | 'listener' | 'bound' (a value the roster computes and hands in)"""
+        def go():
+            cls = None
+            for ic in (False, True):
+                for args in self._roster_calls(ic).get(key, []):
+                    c = [self._classify(a) for a in args]
+                    if cls is not None and c != cls:
+                        raise MissingAnchor("how the roster calls %s (call sites disagree)" % key.rsplit("::", 1)[-1])
+                    cls = c
+            if cls is None:
+                raise MissingAnchor("a call of %s in the roster" % key.rsplit("::", 1)[-1])
+            return cls
+        return self._memo(("classes", key), go)
+
+    def gen_bound_params(self, key, in_check):
+        """{parameter name: value} for the parameters of a generator that the roster computes and hands in (the same
+        value at every call site of that generator)"""
+        def go():
+            b = self.f.bodies[key]
+            cls = self.gen_call_classes(key)
+            sites = self._roster_calls(in_check).get(key, [])
+            out = {}
+            for i, c in enumerate(cls):
+                if c != "bound":
+                    continue
+                vals = {args[i] for args in sites}
+                if len(vals) != 1:
+                    raise MissingAnchor("the value the roster hands to parameter %d of %s" % (i + 1, key.rsplit("::", 1)[-1]))
+                out[b.local_name(i + 1)] = next(iter(vals))
+            return out
+        return self._memo(("bound", key, in_check), go)
 
     @property
     def target_squares(self):
         def go():
             f = self.f
             cands = set()
-            for g in self.generators.values():
+            for g in list(self.generators.values()) + [self.roster]:
                 for c in local_callees(f, g):
                     b = f.bodies[c]
                     a, r = sig(b)
